@@ -65,10 +65,21 @@ func syntaxErrors(text string) (int, string) {
 // the two ordinary neighbour files of the 3-file project
 
 const (
-	nbFirstName = "A_NbAlpha.java"
-	unitName    = "M_Unit.java"
-	nbLastName  = "Z_NbOmega.java"
+	nbFirstName   = "A_NbAlpha.java"
+	nbServiceName = "B_NbService.java"
+	unitName      = "M_Unit.java"
+	nbLastName    = "Z_NbOmega.java"
 )
+
+// nbService: an interface whose method carries the annotation the API scan looks up when a class of
+// another file implements an imported interface (generated units do that now and then)
+const nbService = `package zz.nb;
+
+public interface NbService {
+    @ServiceMethod
+    String serve();
+}
+`
 
 const nbFirst = `package zz.nb;
 
@@ -290,6 +301,9 @@ func checkNeighbours(r results, dir string) string {
 		if !hasStruct(pass.list, "zz.nb", "NbAlpha", "Class", "ping", "pong") {
 			return fmt.Sprintf("%s: the entry of the ordinary file %s (class zz.nb.NbAlpha with ping, pong) is missing from the project result: %s", pass.name, nbFirstName, brief(pass.list))
 		}
+		if !hasStruct(pass.list, "zz.nb", "NbService", "Interface", "serve") {
+			return fmt.Sprintf("%s: the entry of the ordinary file %s (interface zz.nb.NbService with serve) is missing from the project result: %s", pass.name, nbServiceName, brief(pass.list))
+		}
 		if !hasStruct(pass.list, "zz.nb", "NbOmega", "Class", "handle", "send") {
 			return fmt.Sprintf("%s: the entry of the ordinary file %s (class zz.nb.NbOmega with handle, send) is missing from the project result: %s", pass.name, nbLastName, brief(pass.list))
 		}
@@ -379,7 +393,7 @@ func judgeText(text string) string {
 	single := filepath.Join(dir, "single")
 	project := filepath.Join(dir, "project")
 	cli.WriteTree(single, map[string]string{unitName: text})
-	cli.WriteTree(project, map[string]string{nbFirstName: nbFirst, unitName: text, nbLastName: nbLast})
+	cli.WriteTree(project, map[string]string{nbFirstName: nbFirst, nbServiceName: nbService, unitName: text, nbLastName: nbLast})
 	if _, msg := runPasses(single); msg != "" {
 		return stable("file alone: "+msg, dir)
 	}
